@@ -96,7 +96,7 @@ POPS = {
     "fam": ["couple_kids", "pensioners"],
     "mix": ["single_parent", "unemployed", "self_employed"],
 }
-DATES = ["2019-07-01", "2023-01-01", "2024-01-01"]
+DATES = ["2019-07-01", "2023-01-01", "2023-07-01", "2024-01-01"]
 
 
 def actions(tier):
@@ -104,6 +104,10 @@ def actions(tier):
     for d in DATES:
         acts.append({"op": "env", "date": d})
     acts.append({"op": "env", "date": 2021})
+    acts.append({"op": "env", "date": 2023})
+    acts.append({"op": "sim", "date": "2023-07-01", "pop": "fam", "targets": "default", "rounding": True, "debug": False, "form": "frame"})
+    acts.append({"op": "sim", "date": "2023-01-01", "pop": "mix", "targets": "default", "rounding": True, "debug": False, "form": "frame"})
+    acts.append({"op": "sim", "date": "2023-01-01", "pop": "fam-variant", "targets": "default", "rounding": True, "debug": False, "form": "frame"})
     acts.append({"op": "load_functions", "date": "2020-01-01"})
     for d in DATES[:2] if tier == "quick" else DATES:
         acts.append({"op": "sim", "date": d, "pop": "fam", "targets": "default", "rounding": True, "debug": False, "form": "frame"})
@@ -117,6 +121,8 @@ def actions(tier):
     acts.append({"op": "reform", "date": "2023-01-01", "pop": "fam", "group": "kindergeld", "how": "copy"})
     acts.append({"op": "reform", "date": "2023-01-01", "pop": "fam", "group": "sozialv_beitr", "how": "copy"})
     acts.append({"op": "reform_function", "date": "2023-01-01", "pop": "fam", "rule": "kindergeld_m"})
+    acts.append({"op": "reform_function_wrapped", "date": "2023-01-01", "pop": "fam", "rule": "kindergeld_m"})
+    acts.append({"op": "reform_function_wrapped", "date": "2023-01-01", "pop": "fam", "rule": "ges_rentenv_beitr_arbeitnehmer_m"})
     acts.append({"op": "user_spec", "date": "2023-01-01", "pop": "fam"})
     acts.append({"op": "vectorize", "rules": ["kindergeld_m_ab_2023", "ges_rente_mit_grundrente_m", "eink_st_y_sn_kindergeld_oder_kinderfreib"]})
     acts.append({"op": "vectorize", "rules": ["anteil_entgeltp_ost", "arbeitsl_geld_2_m_bg", "_ges_krankenv_beitr_midijob_arbeitnehmer_m_residuum"]})
@@ -130,6 +136,14 @@ def actions(tier):
 
 
 def _frame(pop, date_iso):
+    if pop == "fam-variant":
+        # same shape, same ids, same columns as "fam" - only amounts differ (a cache keyed by shape / ids / columns must not confuse them)
+        rows = popgen.combined(POPS["fam"], int(str(date_iso)[:4]))
+        for r in rows:
+            if r["bruttolohn_m"] > 0:
+                r["bruttolohn_m"] = r["bruttolohn_m"] + 640.0
+            r["bruttokaltmiete_m_hh"] = 950.0
+        return popgen.frame(rows)
     return popgen.frame(popgen.combined(POPS[pop], int(str(date_iso)[:4])))
 
 
@@ -261,6 +275,17 @@ def execute(a, ctx):
 
             funcs = [f, kindergeld_m]
             data, targets = df, None
+        elif op == "reform_function_wrapped":
+            import functools
+
+            orig = f[a["rule"]]
+
+            @functools.wraps(orig)
+            def reformed(*args, **kw):
+                return orig(*args, **kw) * 1.1
+
+            funcs = [f, {a["rule"]: reformed}]
+            data, targets = df, None
         elif op == "user_spec":
             data, targets = df, ["alter_max_hh", "bruttolohn_m_hh"]
             kwargs = dict(aggregate_by_group_specs={"alter_max_hh": {"source_col": "alter", "aggr": "max"}})
@@ -355,7 +380,7 @@ def run(tier):
             rep.violation("nondeterministic-across-processes:" + json.loads(k)["op"], {"history": [json.loads(k)]}, f"{k}: {fresh[k]} vs {again[k]}")
     # histories: singles, all ordered pairs, triples over the state-relevant alphabet, repeated calls
     hists = [[a] for a in acts] + [[a, b] for a in acts for b in acts]
-    small = [a for a in acts if a["op"] in ("vectorize", "vectorize_all", "reform", "failing_sim") or (a["op"] == "sim" and a["form"] != "frame")][: (6 if tier == "quick" else 9)]
+    small = [a for a in acts if a["op"] in ("vectorize", "vectorize_all", "reform", "failing_sim", "reform_function_wrapped") or (a["op"] == "sim" and a["form"] != "frame")][: (6 if tier == "quick" else 9)]
     probe = [a for a in acts if a["op"] == "sim"][:3]
     hists += [[a, b, c] for a in small for b in small for c in probe]
     seen_states = set()
